@@ -126,12 +126,13 @@ def step (d : DSt) (j : Json) : DSt × List String :=
     let σ : St := {}
     ({ d with cfg := some c, σ := σ, nsubs := jNat j "nsubs" }, [observe c "reset" σ σ])
   | "timing" =>
-    -- observed sleeps of one real retry loop (initialCount = 1): each must be at least the model's back-off
+    -- observed sleeps of one real retry loop started with k recorded failures (initialCount = k + 1; k = 0: Notify,
+    -- k > 0: Run after a restart): each must be at least the model's back-off
     let dNs := jNat j "dNs"
     let gaps := jNats j "gapsNs"
     let bad := (List.range gaps.length).filter fun k =>
       match gaps[k]? with
-      | some g => decide (g < backoff dNs Nuts.Facts.C14.retryMaxDelayNs 1 k)
+      | some g => decide (g < backoff dNs Nuts.Facts.C14.retryMaxDelayNs (jNat j "k" + 1) k)
       | none => true
     (d, [if bad.isEmpty then s!"timing|n={gaps.length}" else s!"timing|sleep shorter than back-off at attempts {bad}"])
   | op =>
